@@ -62,6 +62,13 @@ func (r *Receiver) SegmentHandlerFunc(w http.ResponseWriter, req *http.Request) 
 	}
 	ch, ok := r.channelMgr.GetChannel(stream.chName)
 	if !ok {
+		// Credentials are checked before anything is created for the request: an unauthorized
+		// request must not leave a channel (MPD, buffers, goroutine) behind.
+		if chCfg := r.channelMgr.channelConfig(stream.chName); !chCfg.Ignore && !authorized(req, chCfg.AuthUser, chCfg.AuthPswd) {
+			slog.Error("Unauthorized", "chName", stream.chName)
+			http.Error(w, "Unauthorized", http.StatusUnauthorized)
+			return
+		}
 		verifGate("add:" + stream.trName)
 		r.channelMgr.AddChannel(r.ctx, stream.chName, stream.chDir)
 		slog.Debug("Created new  channel", "name", stream.chName, "dir", stream.chDir)
@@ -398,6 +405,15 @@ func (r *Receiver) SegmentHandlerFunc(w http.ResponseWriter, req *http.Request) 
 		}
 	}
 	trD.nrSegsReceived++
+}
+
+// authorized checks the basic-auth credentials of a request against those of a channel (none set: open).
+func authorized(req *http.Request, authUser, authPswd string) bool {
+	if authUser == "" && authPswd == "" {
+		return true
+	}
+	user, pswd, ok := req.BasicAuth()
+	return ok && user == authUser && pswd == authPswd
 }
 
 // rescaleTime converts a time from one timescale to another (rounding down) without forming the
